@@ -9,86 +9,6 @@ import (
 // pre-state (C01 census, C02 maxima, C03/C04 running maxima, C05 saturation,
 // C08 witness invariant).
 
-type vpHS struct {
-	s *HistorySize
-}
-
-// vpFreeHistory gives every numeric field of the aggregate an arbitrary value.
-func vpFreeHistory(s *HistorySize) {
-	s.UniqueCommitCount = counts.Count32(vp_U32("h.commits"))
-	s.UniqueCommitSize = counts.Count64(vp_U64("h.commitbytes"))
-	s.MaxCommitSize = counts.Count32(vp_U32("h.maxcommit"))
-	s.MaxHistoryDepth = counts.Count32(vp_U32("h.depth"))
-	s.MaxParentCount = counts.Count32(vp_U32("h.parents"))
-	s.UniqueTreeCount = counts.Count32(vp_U32("h.trees"))
-	s.UniqueTreeSize = counts.Count64(vp_U64("h.treebytes"))
-	s.UniqueTreeEntries = counts.Count64(vp_U64("h.entries"))
-	s.MaxTreeEntries = counts.Count32(vp_U32("h.maxentries"))
-	s.UniqueBlobCount = counts.Count32(vp_U32("h.blobs"))
-	s.UniqueBlobSize = counts.Count64(vp_U64("h.blobbytes"))
-	s.MaxBlobSize = counts.Count32(vp_U32("h.maxblob"))
-	s.UniqueTagCount = counts.Count32(vp_U32("h.tags"))
-	s.MaxTagDepth = counts.Count32(vp_U32("h.tagdepth"))
-	s.ReferenceCount = counts.Count32(vp_U32("h.refs"))
-	s.MaxPathDepth = counts.Count32(vp_U32("h.pdepth"))
-	s.MaxPathLength = counts.Count32(vp_U32("h.plen"))
-	s.MaxExpandedTreeCount = counts.Count32(vp_U32("h.xtrees"))
-	s.MaxExpandedBlobCount = counts.Count32(vp_U32("h.xblobs"))
-	s.MaxExpandedBlobSize = counts.Count64(vp_U64("h.xbytes"))
-	s.MaxExpandedLinkCount = counts.Count32(vp_U32("h.xlinks"))
-	s.MaxExpandedSubmoduleCount = counts.Count32(vp_U32("h.xsubs"))
-}
-
-type vpNums [22]uint64
-
-func vpNumbers(s *HistorySize) vpNums {
-	return vpNums{
-		uint64(s.UniqueCommitCount), uint64(s.UniqueCommitSize), uint64(s.MaxCommitSize), uint64(s.MaxHistoryDepth),
-		uint64(s.MaxParentCount), uint64(s.UniqueTreeCount), uint64(s.UniqueTreeSize), uint64(s.UniqueTreeEntries),
-		uint64(s.MaxTreeEntries), uint64(s.UniqueBlobCount), uint64(s.UniqueBlobSize), uint64(s.MaxBlobSize),
-		uint64(s.UniqueTagCount), uint64(s.MaxTagDepth), uint64(s.ReferenceCount), uint64(s.MaxPathDepth),
-		uint64(s.MaxPathLength), uint64(s.MaxExpandedTreeCount), uint64(s.MaxExpandedBlobCount), uint64(s.MaxExpandedBlobSize),
-		uint64(s.MaxExpandedLinkCount), uint64(s.MaxExpandedSubmoduleCount),
-	}
-}
-
-const (
-	vpiCommits = iota
-	vpiCommitBytes
-	vpiMaxCommit
-	vpiDepth
-	vpiParents
-	vpiTrees
-	vpiTreeBytes
-	vpiEntries
-	vpiMaxEntries
-	vpiBlobs
-	vpiBlobBytes
-	vpiMaxBlob
-	vpiTags
-	vpiTagDepth
-	vpiRefs
-	vpiPDepth
-	vpiPLen
-	vpiXTrees
-	vpiXBlobs
-	vpiXBytes
-	vpiXLinks
-	vpiXSubs
-)
-
-var vpFieldNames = [22]string{"commits", "commitbytes", "maxcommit", "depth", "parents", "trees", "treebytes", "entries",
-	"maxentries", "blobs", "blobbytes", "maxblob", "tags", "tagdepth", "refs", "pdepth", "plen", "xtrees", "xblobs", "xbytes", "xlinks", "xsubs"}
-
-// vpExpect asserts got == want for every field.
-func vpExpect(got, want vpNums, what string) {
-	for i := 0; i < len(got); i++ {
-		vp_Assert(got[i] == want[i], what+": "+vpFieldNames[i])
-	}
-}
-
-func vpInc32(v uint64) uint64 { return vpMin(v+1, vpCap32) }
-
 var vpOID = git.OID{}
 
 func vpStyle() NameStyle {
